@@ -7,6 +7,7 @@ import (
 	"fmt"
 	"os"
 	"strings"
+	"time"
 )
 
 // simdebug: run a scenario's seed script, then optionally a list of events,
@@ -124,3 +125,37 @@ func init() {
 	vkCommands["simdebug"] = simDebugMain
 	vkCommands["replay"] = simReplayMain
 }
+
+// simExploreMain explores one named scenario and prints the result (development aid).
+func simExploreMain(args []string) int {
+	cleanup := vkScratchRoot()
+	defer cleanup()
+	sc := simScenarios[vkArg(args, "scenario", "elect")]
+	if sc == nil {
+		fmt.Println("unknown scenario")
+		return 2
+	}
+	sc = cloneScenario(sc)
+	sc.MaxDev = vkArgInt(args, "dev", sc.MaxDev)
+	if t := vkArgInt(args, "calltimeout", 0); t > 0 {
+		simCallTimeout = time.Duration(t) * time.Second
+	}
+	res := explore(sc, time.Duration(vkArgInt(args, "budget", 60))*time.Second, 0)
+	fmt.Printf("states=%d transitions=%d depth=%d devCompleted=%d exhaustive=%v cap=%q wall=%.1fs mismatches=%d deaths=%d order=%d/%d stats=%v\n",
+		res.States, res.Transitions, res.MaxDepth, res.DevCompleted, res.Exhaustive, res.Capped, res.Wall, res.Mismatches, res.WorkerDeaths, res.OrderSteps, res.OrderAlts, res.Stats)
+	for i, e := range res.Errors {
+		if i < 8 {
+			fmt.Println("ERR", e)
+		}
+	}
+	for _, f := range res.Findings {
+		fmt.Printf("FINDING %s:%s %s\n   hist=%v\n", f.Viol.Oracle, f.Viol.Key, firstLine(f.Viol.Desc), histStrings(f.Hist))
+		if vkArg(args, "json", "") != "" {
+			b, _ := json.Marshal(f.Hist)
+			fmt.Println("   json=" + string(b))
+		}
+	}
+	return 0
+}
+
+func init() { vkCommands["explore"] = simExploreMain }
